@@ -20,7 +20,8 @@ EXPLANATION = (
     "Tokens::consume and parse_word_declaration; R11 no take() result match accepts EndOfSource; R12 pipeline "
     "protocol (parse only after errors()==None, header/xml only after parse errors()==None). "
     "Not decided: acceptance of all well-formed modules, stack bytes, behaviour for concrete inputs."
-    " ADDED LATER: R5-CONST also: C + K*MAX_NUM_TOKENS <= MAX_NUM_NODES (node ids are 24 bits); R11-ONE-TAKE-PAST-END: on the MIR of every parser function, from a take() every path to another consuming call passes a switch edge that excludes EndOfSource.")
+    " ADDED LATER: R5-CONST also: C + K*MAX_NUM_TOKENS <= MAX_NUM_NODES (node ids are 24 bits); R11-ONE-TAKE-PAST-END: on the MIR of every parser function, from a take() every path to another consuming call passes a switch edge that excludes EndOfSource."
+    " ROUNDS 5-6: R13-ASSERTED-CAPACITY: a vector whose pushes assert len < capacity is pre-allocated with the caller's bound, unreduced; C14.R7 digit tables shared (which bytes a literal swallows). Panic-site keys no longer contain the asserted expression text.")
 
 PT = "delta::parser::parse_tree::"
 TOK = "delta::parser::tokens::Tokens::"
